@@ -68,7 +68,12 @@ StaticContract ==
       [ty |-> "IterMut",        fact |-> "send_iff_T_send", holds |-> TRUE],
       [ty |-> "IterMut",        fact |-> "sync_iff_T_sync", holds |-> TRUE],
       [ty |-> "IntoIter",       fact |-> "send_iff_T_send", holds |-> TRUE],
-      [ty |-> "IntoIter",       fact |-> "sync_iff_T_sync", holds |-> TRUE] }
+      [ty |-> "IntoIter",       fact |-> "sync_iff_T_sync", holds |-> TRUE],
+      \* a drain hands out and destroys elements by value and reads them through a shared borrow: whatever
+      \* auto traits it has, it must not be sendable for elements that are not, nor shareable for elements that are not
+      [ty |-> "Drain",          fact |-> "send_without_T_send", holds |-> FALSE],
+      [ty |-> "Drain",          fact |-> "sync_without_T_sync", holds |-> FALSE],
+      [ty |-> "Drain",          fact |-> "send_without_T_sync", holds |-> FALSE] }
 
 VARIABLE prog
 
